@@ -39,6 +39,13 @@ def texts_for(w):
     return ["ab", "x" * (w - 1), "y" * w, "z" * (w + 1), "q" * int(2.5 * w), "l1\nl2", ""]
 
 
+def script_texts(w):
+    """Non-ASCII lines whose characters take one column each (Cyrillic, Greek, accents, symbols): exactly one row, and one over."""
+    cyr = "\u0436\u0438\u0432\u043e\u0439 \u0442\u0435\u043a\u0441\u0442 "
+    grk = "\u03b1\u03b2\u03b3 \u00e9\u00e0\u00fc \u00b0\u00b1\u2500\u2502 "
+    return [(cyr * w)[:w].rstrip() or "\u0436" * w, (grk * w)[:w + 1]]
+
+
 def rows_of(lines, w):
     out = []
     for line in lines:
@@ -303,18 +310,23 @@ def run(sh, spec):
             if tall:
                 # more rows than any real terminal is high
                 texts = texts + ["\n".join("row%d" % k for k in range(30)), "\n".join("r%d" % k for k in range(70))]
+            script = (not tagged) and (not tall) and rng.random() < 0.25
+            if script:
+                texts = texts + script_texts(w)
             ops = [("new",)]
             model = [[]]
             for _ in range(rng.randint(1, 40)):
                 cands = applicable_ops(model, w)
-                if tagged or tall:
+                if tagged or tall or script:
                     cands += [("w", s, t) for s in range(len(model)) for t in (7, 8)]
                 op = cands[rng.randrange(len(cands))]
                 ops.append(op)
                 apply_model(model, op, texts)
             nnew = sum(1 for o in ops if o[0] == "new")
             inds = [rng.choice([0, 0, 2, 4]) for _ in range(nnew)] if rich else None
-            rec = {"width": w, "ops": [list(o) for o in ops], "indents": inds, "tagged": tagged, "tall": tall}
+            rec = {"width": w, "ops": [list(o) for o in ops], "indents": inds, "tagged": tagged, "tall": tall, "script": script}
+            if script:
+                sh.count("histories_with_non_ascii_lines")
             judge(sh, lab, ops, w, texts, rec, inds, tagged)
             sh.case((w, tuple(ops), tuple(inds or ())), nontrivial(ops, texts, w))
             if i < 1:
@@ -440,6 +452,8 @@ def replay(sh, case):
     texts = texts_for(w)
     if case.get("tagged"):
         texts = texts + ["<b>bold</b> and <info>green</info>", "<error>" + "e" * (w + 3) + "</error>"]
+    if case.get("script"):
+        texts = texts + script_texts(w)
     if case.get("tall"):
         texts = texts + ["\n".join("row%d" % k for k in range(30)), "\n".join("r%d" % k for k in range(70))]
     if case.get("kind") == "multi":
